@@ -584,5 +584,5 @@ def run(ck):
     ck.run_rule("C11.R3", "fresh scope prefix per block and after each ordinary label; fresh file prefix per compilation", 2, rule_R3)
     ck.run_rule("C11.R4", "duplicate definitions are errors, case-insensitively, and keep the first binding", 4, rule_R4)
     ck.run_rule("C11.R5", "exports: '::'/'==', '.extern all', local labels", 4, rule_R5)
-    ck.run_rule("C03.R8", "an exported binding is not accepted before the file's own definitions are known", 2, c03.rule_R8)
+    ck.run_rule("C03.R8", "an exported binding is not accepted before the file's own definitions are known", 1, c03.rule_R8)
     ck.run_rule("C03.R1", "undefined symbols are reported only after deferring", 3, c03.rule_R1)
